@@ -683,14 +683,16 @@ C15 = register(C15Prop(
     "result are compared with the Coq model (derived graphs are rebuilt through the proved add_edge ladder), and the "
     "source is snapshotted again afterwards (unchanged); non-trivial = >=2 kinds of mutation call and one success"))
 C15.manifest = {
-    "text": "Proved (unbounded): every Ok result of get_subgraph / reverse / set_all_edge_weights / to_single_edges is a "
-            "reachable state, hence satisfies the coherence invariant WF (C01-C03 hold of it) and carries the source's specs "
-            "(multi_edges cleared by to_single_edges); reverse refuses undirected and to_single_edges refuses single-edge "
-            "graphs with WrongMethod; the node list handed to the rebuild is exactly the existing nodes named in S. The "
-            "exact node/edge content of each result (induced edges, flipped edges, summed weights) is decided per generated "
-            "case against the model, whose rebuild step is the proved add_edge refinement.",
-    "note": "Axioms: none. Partial: the closed-form content theorems (edges of the subgraph = stored edges with both ends in "
-            "S, reverse twice = identity up to edge permutation, collapse weight = group sum) are validated per case, not yet "
-            "proved unboundedly. 'Source unchanged' is immediate in the functional model and follows from &self in Rust.",
-    "technique": "Coq proof: derived graphs are reachable states (WF by the history theorem) + correspondence",
+    "text": "Proved (unbounded, every coherent = every reachable source graph, generic name type): get_subgraph(S) returns Ok "
+            "with exactly the existing nodes named in S (original order, attributes) and a permutation of the stored edges "
+            "with both ends in S (the internal unwrap is unreachable); set_all_edge_weights keeps nodes and edges and sets "
+            "every weight; reverse (directed) keeps nodes and flips every edge keeping weights, attributes and parallel "
+            "edges, and applying it twice restores node list and edge multiset; to_single_edges (multi) keeps nodes and "
+            "stores one edge per group of parallel edges whose weight is the group's sum, with multi_edges cleared; every "
+            "result is a reachable state (WF, so C01-C03 hold of it) with the expected specs; the wrong kind of graph is "
+            "refused with WrongMethod. Built on the constructor lemma new_from_rebuild (admissible input => stored as is).",
+    "note": "Axioms: none. 'Source unchanged' is immediate in the functional model and follows from &self in Rust (the "
+            "check re-snapshots the source after the calls). Trusted: correspondence of model and code per generated case "
+            "(outcome, specs, nodes, edge multiset and all twelve private indexes of each result).",
+    "technique": "Coq proof: constructor rebuild lemma + WF invariant; correspondence via hook snapshot of every result",
 }
